@@ -3,6 +3,7 @@ package main
 // Translation of contract expressions to SMT terms, and heap access helpers.
 
 import (
+	"reflect"
 	"fmt"
 	"go/constant"
 	"go/types"
@@ -1042,6 +1043,45 @@ func (e *env) trCall(x *ECall) (Val, XT, error) {
 		g.c.declareFun("bsub", []string{"Bytes", "Int", "Int"}, "Bytes")
 		m := g.svGet(e.st, "$bytes", "(Array Int Bytes)")
 		return app("bsub", app("select", m, app("sbase", v)), app("soff", v), nv), XT{S: "Bytes"}, nil
+	case "hastag":
+		// hastag("T", "Field", "token"): the validate struct tag of T.Field, read from the real type,
+		// contains the token - so that contracts about tag-driven validation follow the tags in the code
+		if len(x.Args) != 3 {
+			return nil, XT{}, e.errf("hastag(type, field, token)")
+		}
+		var lit [3]string
+		for i, a := range x.Args {
+			s, ok := a.(*EStr)
+			if !ok {
+				return nil, XT{}, e.errf("hastag takes string literals")
+			}
+			lit[i] = s.V
+		}
+		pkg := g.P.tpkgs[e.pkgPath]
+		if pkg == nil {
+			return nil, XT{}, e.errf("hastag: unknown package %s", e.pkgPath)
+		}
+		obj := pkg.Scope().Lookup(lit[0])
+		if obj == nil {
+			return nil, XT{}, e.errf("hastag: unknown type %s", lit[0])
+		}
+		st, ok := obj.Type().Underlying().(*types.Struct)
+		if !ok {
+			return nil, XT{}, e.errf("hastag: %s is not a struct", lit[0])
+		}
+		for i := 0; i < st.NumFields(); i++ {
+			if st.Field(i).Name() != lit[1] {
+				continue
+			}
+			val := reflect.StructTag(st.Tag(i)).Get("validate")
+			for _, tok := range strings.Split(val, ",") {
+				if strings.TrimSpace(tok) == lit[2] {
+					return "true", xtBool, nil
+				}
+			}
+			return "false", xtBool, nil
+		}
+		return nil, XT{}, e.errf("hastag: %s has no field %s", lit[0], lit[1])
 	case "strContains":
 		a, _, err := argv(0)
 		if err != nil {
